@@ -63,6 +63,30 @@ Theorem C04_cookie_expired : forall H ttl now c mac sv cv a b c4 d, skipn 32 c =
 Proof. exact validate_expired. Qed.
 Print Assumptions C04_cookie_expired.
 
+(* on one CookieManager, after ANY history of earlier Generate / Validate calls and lifetime changes, the
+   verdict on (now, cookie, tuple) is [validate] under the lifetime in effect: earlier validations, accepted
+   or not, never change it (a verdict cache that does is a correspondence mismatch) *)
+Theorem C04_validate_history_independent : forall H ttl pre now c t,
+  snd (cm_run H ttl (pre ++ [CVal now c t])) =
+  snd (cm_run H ttl pre) ++ [CVerdict (validate H (ttl_after ttl pre) now c t)].
+Proof. exact validate_history_independent. Qed.
+Print Assumptions C04_validate_history_independent.
+
+(* accepted while fresh, replayed after expiry: rejected, whatever was validated in between *)
+Theorem C04_expired_replay_rejected : forall H ttl pre now c mac sv cv a b c4 d,
+  skipn 32 c = [a; b; c4; d] -> (ttl_after ttl pre < now - Z.of_N (be32 a b c4 d) * ns_per_s)%Z ->
+  snd (cm_run H ttl (pre ++ [CVal now c (mac, sv, cv)])) = snd (cm_run H ttl pre) ++ [CVerdict false].
+Proof. exact expired_replay_rejected. Qed.
+Print Assumptions C04_expired_replay_rejected.
+
+Example C04_history_independence_nonvacuous :
+  let c := generate oneH 1000 tA in
+  snd (cm_run oneH 60000000000 [CGen 1000 tA; CVal 1000500000000 c tA; CVal 1000500000000 c tA;
+                                CVal 1061500000000 c tA; CSetTTL 0; CVal 1000500000000 c tA]) =
+  [CCookie c; CVerdict true; CVerdict true; CVerdict false; CNone; CVerdict false].
+Proof. exact history_independence_nonvacuous. Qed.
+Print Assumptions C04_history_independence_nonvacuous.
+
 (* ---------------------------------------------------------------- tags *)
 Theorem C04_parse_tags_terminates : forall p, parse_tags p <> OutOfFuel /\ parse_tags p <> Base.Panic.
 Proof. exact parse_tags_terminates. Qed.
@@ -93,6 +117,15 @@ Theorem C04_padr_rejected_no_state : forall v e s t p s' r, step v e s (PADR t p
   s' = s /\ r = ONone.
 Proof. exact padr_rejected_no_state. Qed.
 Print Assumptions C04_padr_rejected_no_state.
+
+(* in ANY table state (any earlier history, this very PADR already answered or not) a PADR whose cookie
+   has outlived the lifetime creates nothing, in every variant *)
+Theorem C04_padr_expired_no_state : forall v e s t p tg a b c4 d s' r,
+  parse_tags p = Ok tg -> skipn 32 (t_cookie tg) = [a; b; c4; d] ->
+  (e_ttl e < e_now_ns e - Z.of_N (be32 a b c4 d) * ns_per_s)%Z ->
+  step v e s (PADR t p) = Some (s', r) -> s' = s /\ r = ONone.
+Proof. exact padr_expired_no_state. Qed.
+Print Assumptions C04_padr_expired_no_state.
 
 (* composite: a session is created only for a cookie this BNG issued, within its lifetime, for
    the same MAC address and VLAN tags *)
